@@ -175,17 +175,17 @@ Qed.
 Lemma rbind_ok {A B} (r : res A) (f : A -> res B) b : rbind r f = Ok b -> exists a, r = Ok a /\ f a = Ok b.
 Proof. destruct r; simpl; intro H; try discriminate. eauto. Qed.
 
-Lemma generate_inv perm g d : generate perm g = Ok d ->
+Lemma generate_inv perm g d : generate_u perm g = Ok d ->
   g_layers g <> [] /\
-  exists d0, process_apks perm (g_fs g) (nonce_of g) (g_apks g) (base_doc g) = Ok d0 /\
+  exists d0, process_apks_u perm (g_fs g) (nonce_of g) (g_apks g) (base_doc g) = Ok d0 /\
     d = {| d_pkgs := dedup_pkgs [] (d_pkgs d0); d_rels := d_rels d0; d_desc := d_desc d0 |}.
 Proof.
-  unfold generate. destruct (g_layers g) eqn:E; [discriminate|]. intro H.
+  unfold generate_u. destruct (g_layers g) eqn:E; [discriminate|]. intro H.
   apply rbind_ok in H. destruct H as (d0 & H0 & H1). inversion H1; subst.
   split; [discriminate|]. exists d0. split; [exact H0 | reflexivity].
 Qed.
 
-Lemma generate_ids_unique perm g d : generate perm g = Ok d -> IdsUnique d.
+Lemma generate_ids_unique perm g d : generate_u perm g = Ok d -> IdsUnique d.
 Proof.
   intro H. apply generate_inv in H. destruct H as (_ & d0 & _ & ->).
   unfold IdsUnique, ids; simpl. apply dedup_pkgs_spec.
@@ -276,24 +276,24 @@ Proof.
   destruct (copy_elements _ _ _); simpl; try discriminate; congruence.
 Qed.
 
-Lemma process_apks_fuel perm fs nonce apks : forall d, process_apks perm fs nonce apks d <> OutOfFuel.
+Lemma process_apks_fuel perm fs nonce apks : forall d, process_apks_u perm fs nonce apks d <> OutOfFuel.
 Proof.
   induction apks as [|a apks IH]; intro d; simpl; [discriminate|].
   match goal with |- rbind ?r _ <> _ => pose proof (process_internal_fuel perm fs _ (a_name a) (a_version a) : r <> OutOfFuel) as H; destruct r end;
     simpl; try discriminate; try congruence; try apply IH.
 Qed.
 
-Lemma generate_fuel perm g : generate perm g <> OutOfFuel.
+Lemma generate_fuel perm g : generate_u perm g <> OutOfFuel.
 Proof.
-  unfold generate. destruct (g_layers g); [discriminate|].
+  unfold generate_u. destruct (g_layers g); [discriminate|].
   pose proof (process_apks_fuel perm (g_fs g) (nonce_of g) (g_apks g) (base_doc g)) as H.
-  destruct (process_apks _ _ _ _ _); simpl; try discriminate; congruence.
+  destruct (process_apks_u _ _ _ _ _); simpl; try discriminate; congruence.
 Qed.
 
 (* ---- Generate without embedded SBOMs ---------------------------------------------------------- *)
 Lemma process_apks_plain perm fs nonce apks : forall d,
   (forall a, In a apks -> locate fs (candidates (a_name a) (a_version a)) = None) ->
-  process_apks perm fs nonce apks d =
+  process_apks_u perm fs nonce apks d =
     Ok {| d_pkgs := d_pkgs d ++ List.map (apk_package nonce) apks; d_rels := d_rels d; d_desc := d_desc d |}.
 Proof.
   induction apks as [|a apks IH]; intros d H; simpl.
@@ -303,10 +303,10 @@ Proof.
 Qed.
 
 Lemma generate_plain perm g : NoEmbedded g -> g_layers g <> [] ->
-  generate perm g = Ok {| d_pkgs := dedup_pkgs [] (own_elements g);
+  generate_u perm g = Ok {| d_pkgs := dedup_pkgs [] (own_elements g);
                           d_rels := d_rels (base_doc g); d_desc := d_desc (base_doc g) |}.
 Proof.
-  intros NE L. unfold generate. destruct (g_layers g) eqn:E; [congruence|].
+  intros NE L. unfold generate_u. destruct (g_layers g) eqn:E; [congruence|].
   rewrite process_apks_plain by exact NE. reflexivity.
 Qed.
 
@@ -336,7 +336,7 @@ Proof.
     destruct (String.eqb (g_vcs g) ""); [exact R|]. apply add_source_refs; [exact R|]. left; reflexivity.
 Qed.
 
-Lemma generate_plain_refs perm g d : NoEmbedded g -> generate perm g = Ok d -> RefsResolve d.
+Lemma generate_plain_refs perm g d : NoEmbedded g -> generate_u perm g = Ok d -> RefsResolve d.
 Proof.
   intros NE H. pose proof (generate_inv _ _ _ H) as (L & _). rewrite (generate_plain perm g NE L) in H.
   inversion H; subst. apply (refs_resolve_more_pkgs (base_doc g)); [apply base_doc_refs, L|].
@@ -363,7 +363,7 @@ Lemma elem_same_id nonce a b : ElemOf a (apk_package nonce b) -> p_id (apk_packa
 Proof. intros (N & V & _). simpl in *. rewrite N, V. reflexivity. Qed.
 
 Lemma generate_plain_unique_ids perm g d : NoEmbedded g -> NoDup (List.map p_id (own_elements g)) ->
-  generate perm g = Ok d -> d_pkgs d = own_elements g.
+  generate_u perm g = Ok d -> d_pkgs d = own_elements g.
 Proof.
   intros NE N H. pose proof (generate_inv _ _ _ H) as (L & _). rewrite (generate_plain perm g NE L) in H.
   inversion H; subst; simpl. apply dedup_pkgs_nodup_id; [exact N | intros x _ []].
@@ -388,7 +388,7 @@ Proof.
 Qed.
 
 Lemma generate_one_per_apk perm g d : NoEmbedded g -> NoDup (List.map p_id (own_elements g)) ->
-  generate perm g = Ok d ->
+  generate_u perm g = Ok d ->
   d_pkgs d = d_pkgs (base_doc g) ++ List.map (apk_package (nonce_of g)) (g_apks g) /\
   MatchesInstalled (g_apks g) (List.map (apk_package (nonce_of g)) (g_apks g)).
 Proof.
@@ -405,7 +405,7 @@ Proof.
   destruct (String.eqb (g_vcs g) ""); simpl; [right; exact H|]. right. apply in_or_app. left. exact H.
 Qed.
 
-Lemma generate_plain_image perm g d : NoEmbedded g -> g_image g <> "" -> generate perm g = Ok d ->
+Lemma generate_plain_image perm g d : NoEmbedded g -> g_image g <> "" -> generate_u perm g = Ok d ->
   DescribesImage (g_image g) d.
 Proof.
   intros NE I H. pose proof (generate_inv _ _ _ H) as (L & _). rewrite (generate_plain perm g NE L) in H.
@@ -414,7 +414,7 @@ Proof.
   destruct (String.eqb (g_vcs g) ""); simpl; (split; [left; reflexivity | repeat split]).
 Qed.
 
-Lemma generate_plain_layers perm g d : NoEmbedded g -> NoDup (ids (base_doc g)) -> generate perm g = Ok d ->
+Lemma generate_plain_layers perm g d : NoEmbedded g -> NoDup (ids (base_doc g)) -> generate_u perm g = Ok d ->
   NamesLayers (g_layers g) d.
 Proof.
   intros NE N H. pose proof (generate_inv _ _ _ H) as (L & _). rewrite (generate_plain perm g NE L) in H.
@@ -472,7 +472,7 @@ Definition collide_witness : gen_in :=
 
 Lemma one_per_apk_refuted : exists g, NoEmbedded g /\
   NoDup (List.map (fun a => (a_name a, a_version a)) (g_apks g)) /\
-  forall perm, exists d, generate perm g = Ok d /\
+  forall perm, exists d, generate_u perm g = Ok d /\
     exists a, In a (g_apks g) /\ forall p, In p (d_pkgs d) -> ~ ElemOf a p.
 Proof.
   exists collide_witness. split; [intros a _; reflexivity|]. split.
@@ -631,7 +631,7 @@ Lemma process_apks_refs perm fs nonce : (forall l, Permutation (perm l) l) ->
   forall apks d d', RefsResolve d -> (List.length (d_desc d) <= 1)%nat ->
   (forall a, In a apks -> forall e, locate fs (candidates (a_name a) (a_version a)) = Some (FDoc e) ->
      (List.length (targets (a_name a) e) <= 1)%nat) ->
-  process_apks perm fs nonce apks d = Ok d' -> RefsResolve d'.
+  process_apks_u perm fs nonce apks d = Ok d' -> RefsResolve d'.
 Proof.
   intros P. induction apks as [|a apks IH]; intros d d' R L S H; simpl in H.
   - inversion H; subst; exact R.
@@ -654,7 +654,7 @@ Proof.
 Qed.
 
 Lemma generate_refs_single perm g d : (forall l, Permutation (perm l) l) -> SingleTarget g ->
-  generate perm g = Ok d -> RefsResolve d.
+  generate_u perm g = Ok d -> RefsResolve d.
 Proof.
   intros P S H. apply generate_inv in H. destruct H as (L & d0 & H0 & ->).
   pose proof (process_apks_refs perm (g_fs g) (nonce_of g) P (g_apks g) (base_doc g) d0 (base_doc_refs g L) (base_doc_desc g) S H0) as R.
@@ -695,7 +695,7 @@ Definition three_target_witness : gen_in :=
 Lemma replace_loop_refuted : exists g d,
   (forall k e, In (k, FDoc e) (g_fs g) -> RefsResolve e /\ IdsUnique e /\ Forall ValidId (ids e)) /\
   Permutation (@rev string (targets "foo" three_sbom)) (targets "foo" three_sbom) /\
-  generate (@rev string) g = Ok d /\ ~ RefsResolve d.
+  generate_u (@rev string) g = Ok d /\ ~ RefsResolve d.
 Proof.
   exists three_target_witness. eexists. split; [|split; [|split; [vm_compute; reflexivity|]]].
   - intros k e [E|[]]; inversion E; subst; (split; [apply refs_resolve_b_iff; vm_compute; reflexivity|]);
@@ -706,10 +706,10 @@ Proof.
 Qed.
 
 (* the repaired defect stays repaired in the model *)
-Lemma replace_self_fixed : exists d, generate (fun l => l) replace_self_witness = Ok d /\ RefsResolve d.
+Lemma replace_self_fixed : exists d, generate_u (fun l => l) replace_self_witness = Ok d /\ RefsResolve d.
 Proof. eexists. split; [vm_compute; reflexivity | apply refs_resolve_b_iff; vm_compute; reflexivity]. Qed.
 
-Lemma generate_plain_digests perm g d : NoEmbedded g -> generate perm g = Ok d ->
+Lemma generate_plain_digests perm g d : NoEmbedded g -> generate_u perm g = Ok d ->
   (g_image g <> "" -> DescribesImage (g_image g) d) /\
   (NoDup (ids (base_doc g)) -> NamesLayers (g_layers g) d).
 Proof.
